@@ -9,6 +9,7 @@ import (
 	"github.com/git-lfs/git-lfs/v3/fs"
 	"github.com/git-lfs/git-lfs/v3/git"
 	"github.com/git-lfs/git-lfs/v3/lfs"
+	"github.com/git-lfs/git-lfs/v3/subprocess"
 	"github.com/git-lfs/git-lfs/v3/tasklog"
 	"github.com/git-lfs/git-lfs/v3/tq"
 )
@@ -75,23 +76,23 @@ func VerifC05_Prune() {
 		Git: config.EnvironmentOf(config.MapFetcher(map[string][]string{})),
 		Os:  config.EnvironmentOf(config.MapFetcher(map[string][]string{})),
 	}
-	verifSchedPolicy(verifChoose("schedule.policy", 3))
+	verifSchedPolicy(verifChoose("schedule.policy", verifBound("schedule.policies", 2, 3)))
 
 	// retention settings
 	refDays := verifNondetInt("lfs.fetchrecentrefsdays")
 	commitDays := verifNondetInt("lfs.fetchrecentcommitsdays")
 	offset := verifNondetInt("lfs.pruneoffsetdays")
 	verifAssume(refDays >= 0 && refDays <= 10 && commitDays >= 0 && commitDays <= 10 && offset >= 0 && offset <= 5)
-	force := verifNondetBool("--force")
-	recent := verifNondetBool("--recent") || force
+	force := (verifChoose("--force", 2) == 1)
+	recent := (verifChoose("--recent", 2) == 1) || force
 	fpc := lfs.FetchPruneConfig{
 		FetchRecentRefsDays: refDays, FetchRecentRefsIncludeRemotes: true, FetchRecentCommitsDays: commitDays,
 		PruneOffsetDays: offset, PruneRemoteName: "backup", PruneRecent: recent, PruneForce: force,
 	}
-	verifyRemote := verifNondetBool("--verify-remote")
-	verifyUnreachable := verifyRemote && verifNondetBool("--verify-unreachable")
-	continueUnverified := verifyRemote && verifNondetBool("--when-unverified=continue")
-	dryRun := verifNondetBool("--dry-run")
+	verifyRemote := (verifChoose("--verify-remote", 2) == 1)
+	verifyUnreachable := verifyRemote && (verifChoose("--verify-unreachable", 2) == 1)
+	continueUnverified := verifyRemote && (verifChoose("--when-unverified=continue", 2) == 1)
+	dryRun := (verifChoose("--dry-run", 2) == 1)
 
 	// the repository
 	const headSha, otherSha, branchSha = "1111111111111111111111111111111111111111", "2222222222222222222222222222222222222222", "3333333333333333333333333333333333333333"
@@ -101,10 +102,8 @@ func VerifC05_Prune() {
 	git.VerifHead = &git.Ref{Name: "main", Type: git.RefTypeLocalBranch, Sha: headSha}
 	git.VerifCommitDates = map[string]time.Time{headSha: headDate, otherSha: headDate, branchSha: headDate}
 	git.VerifBranches = nil
-	git.VerifWorktrees = []*git.Worktree{
-		{Ref: *git.VerifHead, Dir: root + "/work"},
-		{Ref: git.Ref{Name: "side", Type: git.RefTypeLocalBranch, Sha: otherSha}, Dir: root + "/other"},
-	}
+	otherAttr := -1 // attribute of the added worktree, chosen when an object lives there
+	subprocess.VerifWaitErr = nil
 	tq.VerifServerObjects = map[string]string{}
 	fs.VerifObjects = nil
 	verifManifestRemotes = nil
@@ -134,11 +133,17 @@ func VerifC05_Prune() {
 			repo.Index[root+"/work"] = append(repo.Index[root+"/work"], oid)
 			needed[oid] = true
 		case roleOtherWorktreeHead:
+			if otherAttr < 0 {
+				otherAttr = verifChoose("other.worktree.attribute", 4)
+			}
 			repo.Tree[otherSha] = append(repo.Tree[otherSha], oid)
 			needed[oid] = !force
 		case roleOtherWorktreeIndex:
+			if otherAttr < 0 {
+				otherAttr = verifChoose("other.worktree.attribute", 4)
+			}
 			repo.Index[root+"/other"] = append(repo.Index[root+"/other"], oid)
-			needed[oid] = true
+			needed[oid] = otherAttr != 3 // the index of a worktree whose directory is gone cannot be read
 		case roleStashed:
 			repo.Stashed = append(repo.Stashed, oid)
 			needed[oid] = true
@@ -151,7 +156,7 @@ func VerifC05_Prune() {
 			verifAssume(age >= 0 && age <= 20)
 			date := verifT0.AddDate(0, 0, -age).Add(-12 * time.Hour)
 			if len(git.VerifBranches) == 0 {
-				git.VerifBranches = append(git.VerifBranches, git.VerifBranch{Ref: &git.Ref{Name: "topic", Type: git.RefTypeLocalBranch, Sha: branchSha}, Date: date, Remote: verifNondetBool("branch.is.remote")})
+				git.VerifBranches = append(git.VerifBranches, git.VerifBranch{Ref: &git.Ref{Name: "topic", Type: git.RefTypeLocalBranch, Sha: branchSha}, Date: date, Remote: (verifChoose("branch.is.remote", 2) == 1)})
 			}
 			repo.Tree[branchSha] = append(repo.Tree[branchSha], oid)
 			age0 := verifBranchAge
@@ -168,12 +173,31 @@ func VerifC05_Prune() {
 			needed[oid] = !recent && commitDays > 0 && age < commitDays+offset
 		case roleOldPushed, roleOrphan:
 		}
-		if verifNondetBool("server.has") {
+		if (verifChoose("server.has", 2) == 1) {
 			tq.VerifServerObjects[oid] = "0123456789"
 			onServer[oid] = true
 		}
 	}
 	verifBranchAge = -1
+
+	// `git worktree list --porcelain -z`: the main working tree and one added
+	// worktree, which may be locked (with or without a reason) or prunable
+	if otherAttr < 0 {
+		otherAttr = 0
+	}
+	listing := "worktree " + root + "/work\x00HEAD " + headSha + "\x00branch refs/heads/main\x00\x00"
+	listing += "worktree " + root + "/other\x00HEAD " + otherSha + "\x00branch refs/heads/side\x00"
+	switch otherAttr {
+	case 1:
+		listing += "locked\x00"
+	case 2:
+		listing += "locked on a removable disk\x00"
+	case 3:
+		listing += "prunable gitdir file points to non-existent location\x00"
+	}
+	listing += "\x00"
+	subprocess.VerifStdout = listing
+	git.VerifScriptGit = true
 
 	exited := false
 	func() {
